@@ -135,8 +135,76 @@ def corpus_cases():
     yield C(max_line=20, max_field=100), b"GET / HTTP/1.1\r\nHost: x\r\n\r\nGET /" + b"a" * 30 + b" HTTP/1.1\r\nHost: x\r\n\r\n", "F1-pipeline"
     yield C(), b"GET http://[::1 HTTP/1.1\r\nHost: x\r\n\r\n", "F5"
     yield C(response=True, lax=True), b"HTTP/1.1 200 OK\r\nTransfer-Encoding: chun\xe2\x84\xaaed\r\n\r\n3\r\nabc\r\n0\r\n\r\n", "F13-kelvin"
+    yield C(max_line=40, max_field=100), b"POST / HTTP/1.1\r\nHost: x\r\nTransfer-Encoding: chunked\r\n\r\n5\r\nhello\r\n0\r\nX: " + b"t" * 60 + b"\r\nY: " + b"u" * 60 + b"\r\n\r\n", "trailer-between-limits"
+    yield C(max_line=100, max_field=40), b"POST / HTTP/1.1\r\nHost: x\r\nTransfer-Encoding: chunked\r\n\r\n5;" + b"e" * 60 + b"\r\nhello\r\n0\r\n\r\n", "chunkline-between-limits"
+    yield C(max_headers=6), b"GET / HTTP/1.1\r\nHost: x\r\nA: 1\r\nB: 2\r\nC: 3\r\n\r\n", "exactly-max-headers"
     yield C(response=True, lax=True), b"HTTP/1.1 200 OK\r\nTransfer-Encoding: chunked\r\n\r\n3\r\nabc\r\n0\n\rX: y\r\n\r\n", "lax-lfcr-before-trailer"
     yield C(response=True, lax=True), b"HTTP/1.1 200 OK\nTransfer-Encoding: chunked\n\n3\nabc\n\r0\n\r\n", "lax-lfcr-2"
+
+
+def compressed_streams(rng):
+    """messages whose body is content-encoded: the real parser decodes while parsing (auto_decompress)"""
+    import zlib, gzip
+    out = []
+    for _ in range(3):
+        raw = bytes(rng.choice(b"abcdefgh \r\n0") for _ in range(rng.choice([1, 5, 40, 300])))
+        co = zlib.compressobj(wbits=-15); rawdef = co.compress(raw) + co.flush()
+        for enc, body in (("deflate", rawdef), ("deflate", zlib.compress(raw)), ("gzip", gzip.compress(raw))):
+            if rng.random() < 0.5:
+                n1 = rng.randint(1, max(1, len(body) - 1))
+                framed = b"%x\r\n" % n1 + body[:n1] + b"\r\n" + (b"%x\r\n" % (len(body) - n1) + body[n1:] + b"\r\n" if len(body) > n1 else b"") + b"0\r\n\r\n"
+                hdr = b"Transfer-Encoding: chunked\r\n"
+            else:
+                framed, hdr = body, b"Content-Length: %d\r\n" % len(body)
+            out.append((False, b"POST /z HTTP/1.1\r\nHost: h\r\nContent-Encoding: " + enc.encode() + b"\r\n" + hdr + b"\r\n" + framed, raw))
+            out.append((True, b"HTTP/1.1 200 OK\r\nContent-Encoding: " + enc.encode() + b"\r\n" + hdr + b"\r\n" + framed, raw))
+    return out
+
+
+def run_decoding(response, segs):
+    """real parser with auto_decompress=True → (rejected?, delivered bytes, complete?)"""
+    import aiohttp.http_parser as hp
+    from aiohttp.base_protocol import BaseProtocol
+    lp = H.loop()
+    proto = BaseProtocol(lp); proto.transport = H._Transport()
+    if response:
+        p = hp.HttpResponseParserPy(proto, lp, 2 ** 20, auto_decompress=True)
+    else:
+        p = hp.HttpRequestParserPy(proto, lp, 2 ** 20, auto_decompress=True)
+    proto._parser = p
+    payloads, err = [], None
+    for s in segs:
+        try:
+            msgs, _, _ = p.feed_data(s)
+            payloads += [pl for _, pl in msgs]
+        except BaseException as e:  # noqa
+            err = type(e).__name__; break
+    got = b""
+    complete = False
+    for pl in payloads:
+        if hasattr(pl, "_buffer"):
+            got += b"".join(pl._buffer)
+            complete = complete or pl.is_eof()
+            if pl.exception() is not None:
+                err = err or type(pl.exception()).__name__
+    return err, got, complete
+
+
+def check_decoding(ctx):
+    rng = ctx.rng
+    for response, data, raw in compressed_streams(rng):
+        base = run_decoding(response, [data])
+        if base[0] is None and base[2] and base[1] != raw:
+            ctx.violation("C09/decoded-bytes-differ/whole", {"kind": "z", "response": response, "stream": hx(data), "cuts": [len(data)]}, "decoded body differs from the original")
+        for segs in H.cuts_single(data) + [H.bytewise(data)]:
+            r = run_decoding(response, segs)
+            ctx.case(("z", response, data, tuple(len(s) for s in segs)))
+            if (r[0] is None) != (base[0] is None) or (r[0] is None and (r[1], r[2]) != (base[1], base[2])):
+                ctx.violation(f"C03/decoding/segmentation-dependent/{'resp' if response else 'req'}",
+                              {"kind": "z", "response": response, "stream": hx(data), "cuts": [len(s) for s in segs]},
+                              f"whole: err={base[0]} {len(base[1])} bytes; cut {[len(s) for s in segs][:4]}: err={r[0]} {len(r[1])} bytes")
+                break
+    ctx.hit("decoding-streams")
 
 
 def check(ctx):
@@ -144,6 +212,12 @@ def check(ctx):
     lines, pending = [], []
     for cfg, data, name in corpus_cases():
         one_stream(ctx, rng, cfg, data, "corpus:" + name, lines, pending)
+    # limit probes (every syntactic position at limit-1/limit/limit+1, unequal limits) under all cuts
+    from .c10 import limit_probes
+    for _ in range(10 if ctx.quick else 100):
+        for cfg, data, pos, delta in limit_probes(rng):
+            one_stream(ctx, rng, cfg, data, f"probe:{pos}", lines, pending)
+    check_decoding(ctx)
     n_streams = 600 if ctx.quick else 12000
     for i in range(n_streams):
         mode = rng.random()
@@ -167,6 +241,14 @@ def check(ctx):
 
 
 def replay(ctx, case):
+    if case.get("kind") == "z":
+        data = unhx(case["stream"]); segs, pos = [], 0
+        for n in case["cuts"]:
+            segs.append(data[pos:pos + n]); pos += n
+        base, r = run_decoding(case["response"], [data]), run_decoding(case["response"], segs)
+        if (r[0] is None) != (base[0] is None) or (r[0] is None and (r[1], r[2]) != (base[1], base[2])):
+            ctx.violation(f"C03/decoding/segmentation-dependent/{'resp' if case['response'] else 'req'}", case, "decoded outcome depends on segmentation")
+        return
     spec = case["cfg"].split(",")
     cfg = H.Cfg(int(spec[0]), int(spec[1]), int(spec[2]), spec[3] == "1", spec[4] == "1", spec[5] == "1", spec[6] == "1", unhx(spec[7]))
     data = unhx(case["stream"])
